@@ -32,7 +32,7 @@ EDGE_NAMES = ["foo:q1", "und:x", "odk:q", "jr:n", "a:b"]
 
 @st.composite
 def _cases(draw):
-    P = dict(gen.PROFILES["broad"], settings="some", p_attr_override=0.08, p_tag_names=0.04)
+    P = dict(gen.PROFILES["broad"], settings="some", p_attr_override=0.08, p_tag_names=0.04, p_osm=0.03)
     g = gen.G(draw, P)
     form = gen.build_form(draw, P, g=g)
     edge = None
